@@ -11,7 +11,8 @@ LEVEL = "exploration"
 TECHNIQUE = 'runtime monitoring: return/raise monitor on find_shortest_path judged by a BFS reference model; exhaustive over every graph with <=12 lattice edges x every ordered cell pair, adversarial and random larger graphs, plus all library-internal solver calls'
 RULE = ("find_shortest_path(s, e) judged against BFS on an adjacency-set model: (1) exhaustively every connection structure on "
         "every grid with <= 12 lattice edges (1x1..1x7, 2x2, 2x3, 3x2, 2x4, 4x2, 3x3) x every ordered cell pair; (2) random trees, "
-        "cyclic, percolation and A*-hostile shapes on larger square/oblong grids with sampled pairs (tuple and array arguments); "
+        "cyclic, percolation and A*-hostile shapes on larger square/oblong grids with sampled pairs (arguments as tuples, lists, int64/int32/int8 arrays, "
+        "tuples of numpy scalars), incl. grids of 13..30 (thorough 40) cells a side and long thin grids (more than 127 / 255 cells); "
         "(3) SolvedMaze.from_targeted_lattice_maze; (4) the ambient solver monitor on internal calls (generate_random_path). "
         "non-trivial & distinct = distinct (connection structure, s, e) with s != e on a structure with >= 1 edge")
 ASSUMPTIONS = ["mazes obey the boundary rule (no connection leaves the grid)", "start/end inside the grid"]
@@ -19,7 +20,7 @@ EXHAUSTIVE = {"quick": False, "thorough": False}
 NSHARDS = {"quick": 16, "thorough": 16}
 THRESHOLDS = {
     "quick": {"repotests:ambient:solver:return": 50, "c02:unreachable-raised": 1000, "c02:multi-route-pairs": 1000, "c02:adv-mazes": 100, "c02:self-query": 100,
-              "c02:exh-structures": 6541, "c02:from-targeted": 50, "ambient:solver:return": 20, "c02:array-args": 100,
+              "c02:exh-structures": 6541, "c02:from-targeted": 50, "ambient:solver:return": 20, "c02:array-args": 100, "c02:large-mazes": 60,
               "hits:find_shortest_path": 1000},
 }
 THRESHOLDS["thorough"] = {**THRESHOLDS["quick"], "c02:exh-structures-13-17-edges": 2 * 8192 + 2 * 131072}
@@ -28,10 +29,20 @@ ANCHORS = ["maze_dataset.maze.lattice_maze:LatticeMaze.find_shortest_path",
            "maze_dataset.maze.lattice_maze:LatticeMaze.nodes_connected"]
 
 
+ARG_FORMS = {
+    1: lambda c: np.array(c),
+    2: lambda c: np.array(c, dtype=np.int8),
+    3: lambda c: list(c),
+    4: lambda c: tuple(np.int64(x) for x in c),
+    5: lambda c: np.array(c, dtype=np.int32),
+}
+
+
 def _solve(ctx, maze, g, s, e, case, cache, as_array=False):
     try:
         if as_array:
-            res = maze.find_shortest_path(np.array(s), np.array(e))
+            f = ARG_FORMS.get(int(as_array), ARG_FORMS[1])
+            res = maze.find_shortest_path(f(s), f(e))
         else:
             res = maze.find_shortest_path(s, e)
         exc = None
@@ -128,7 +139,7 @@ def run(ctx):
             pairs = [(cells[int(i) // len(cells)], cells[int(i) % len(cells)]) for i in ii]
             pairs += [(cells[0], cells[-1]), (cells[-1], cells[0]), (cells[0], cells[0])]
         for t, (s, e) in enumerate(pairs):
-            arr = (t % 5 == 0)
+            arr = (1 + (t // 5) % 5) if (t % 5 == 0) else 0
             if arr:
                 ctx.tally("c02:array-args")
             _solve(ctx, maze, g, s, e, dict(kind="big", family=fam, shape=(R, C), cl=cl, s=s, e=e, j=j), cache, as_array=arr)
@@ -153,6 +164,32 @@ def run(ctx):
             ctx.ev()
             ctx.tally("c02:from-targeted")
             oracles.check_c02(ctx, g, s, e, res, exc, case, dist_cache=cache)
+    # ---- (2b) large grids (more than 127 / 255 cells, coordinates up to 39): few pairs each, far apart ------------
+    n_large = 64 if ctx.quick else 640
+    for j in range(n_large):
+        if not ctx.mine(j):
+            continue
+        rng = ctx.sub_rng("large", j)
+        if j % 4 == 0:
+            R, C = int(rng.integers(2, 9)), int(rng.integers(16, 41))
+            if j % 8 == 0:
+                R, C = C, R
+        else:
+            R = C = int(rng.integers(13, 31 if ctx.quick else 41))
+        fam = ["tree", "cyc3", "cycN", "perc6", "perc8", "serpentine", "spiral", "wall", "full", "comb"][j % 10]
+        fam, cl = ref.random_structure(R, C, rng, fam)
+        g = Graph(cl)
+        maze = lib.lattice(cl)
+        cells = ref.all_cells(R, C)
+        cache = {}
+        ctx.tally("c02:large-mazes")
+        corners = [cells[0], cells[-1], (0, C - 1), (R - 1, 0)]
+        pairs = [(a, b) for a in corners for b in corners if a != b][:6]
+        pairs += [(cells[int(a)], cells[int(b)]) for a, b in rng.integers(0, len(cells), size=(10 if ctx.quick else 30, 2))]
+        for t, (s, e) in enumerate(pairs):
+            _solve(ctx, maze, g, s, e, dict(kind="large", family=fam, shape=(R, C), cl=cl, s=s, e=e, j=j), cache, as_array=(t % 6))
+            if s != e:
+                ctx.nontrivial("large", cl, s, e)
     # ---- multi-route accounting on the exhaustive part (cheap sample) ------
     rng = ctx.sub_rng("multi")
     for _ in range(150):
